@@ -377,3 +377,150 @@ Proof.
         cbn [Post1 tailtext]. rewrite join_dots_cons. exact HB.
 Qed.
 End Walk1.
+
+(* ================================================================== the second walk *)
+Section Walk2.
+Variable cfg : bool.
+Variable d : list N.
+Variable he : bool.
+
+Definition w2body (label : list N) (ip : aal) (flushed : bool) (k : N -> bool -> wres) (pte : N) : wres :=
+  match ip with
+  | MixedCaseAscii m => mixed_write cfg d m he false 949 0 pte flushed k
+  | MixedCasePunycode m =>
+      if is_ascii_l label then flush_prefix d pte flushed (wapp (chars label) (k pte true))
+      else mixed_write cfg d m he false 992 0 pte flushed k
+  | AalOther =>
+      if is_ascii_l label then flush_prefix d pte flushed (wapp (chars label) (k pte true))
+      else flush_prefix d pte flushed (write_punycode_label cfg label (k pte true))
+  end.
+
+Lemma walk2_cons label labels ip aps seen pte flushed :
+  walk2 cfg d he (label :: labels) (ip :: aps) seen pte flushed =
+  let k := fun pte flushed => walk2 cfg d he labels aps true pte flushed in
+  if seen then
+    if flushed then wcons [DOT] (w2body label ip flushed k pte)
+    else if cfg && negb (nth (N.to_nat pte) d 256 =? DOT) then ([], WPanic 933)
+    else w2body label ip flushed k (pte + 1)
+  else w2body label ip flushed k pte.
+Proof. destruct ip; reflexivity. Qed.
+
+Definition Res2 (flushed : bool) (P : list N) (F : list N) (w : wres) : Prop :=
+  snd w = WEnd false /\ wcat w = (if flushed then F else P ++ F).
+Definition Post2 (flushed : bool) (P : list N) (o : list (list N) + N) (seen : bool) (w : wres) : Prop :=
+  match o with inl os => Res2 flushed P (tailtext seen os) w | inr s => snd w = WPanic s end.
+Lemma Res2_shift P X F w : Res2 false (P ++ X) F w -> Res2 false P (X ++ F) w.
+Proof. unfold Res2. rewrite <- !app_assoc. auto. Qed.
+
+Definition KS2 (labels' : list (list N)) (aps' : list aal) (k : N -> bool -> wres) : Prop :=
+  (forall pt, Post2 true [] (outs cfg is_ascii_l labels' aps') true (k pt true)) /\
+  (forall pt P' rl', d = P' ++ tailtext true rl' -> len P' = pt -> cover aps' rl' ->
+     Post2 false P' (outs cfg is_ascii_l labels' aps') true (k pt false)).
+
+Lemma mixed_spec2 labels' aps' k m sn flushed pt P1 rl' : KS2 labels' aps' k ->
+  (flushed = false -> d = P1 ++ m ++ tailtext true rl' /\ len P1 = pt /\ cover aps' rl') ->
+  match outs cfg is_ascii_l labels' aps' with
+  | inl os' => Res2 flushed P1 (map to_lower m ++ tailtext true os') (mixed_write cfg d m he false sn 0 pt flushed k)
+  | inr s => snd (mixed_write cfg d m he false sn 0 pt flushed k) = WPanic s
+  end.
+Proof.
+  intros [K1 K2] Hpos. destruct flushed.
+  - destruct (mw_flushed cfg d he m false sn 0 pt k) as [E1 E2]. specialize (K1 pt). unfold Post2 in K1.
+    destruct (outs cfg is_ascii_l labels' aps') as [os'|s]; [|rewrite E1; exact K1].
+    unfold Res2 in *. destruct K1 as [K1a K1b]. rewrite E1, E2, K1a, K1b. split; reflexivity.
+  - destruct (Hpos eq_refl) as (Hd & HP & Hcv). destruct (existsb is_upper m) eqn:Eu.
+    + destruct (mw_upper cfg d he m false sn 0 pt k P1 (tailtext true rl') Hd HP Eu) as (pt' & E1 & E2).
+      specialize (K1 pt'). unfold Post2 in K1.
+      destruct (outs cfg is_ascii_l labels' aps') as [os'|s]; [|rewrite E1; exact K1].
+      unfold Res2 in *. destruct K1 as [K1a K1b]. rewrite E1, E2, K1a, K1b. split; reflexivity.
+    + destruct (mw_noupper cfg d he m false sn 0 pt k Eu) as [E1 E2]. rewrite E1, E2. cbn [andb].
+      specialize (K2 (pt + len m) (P1 ++ m) rl'). rewrite <- app_assoc in K2. specialize (K2 Hd).
+      rewrite len_app, HP in K2. specialize (K2 eq_refl Hcv). unfold Post2 in K2.
+      destruct (outs cfg is_ascii_l labels' aps') as [os'|s]; [|exact K2]. apply Res2_shift. exact K2.
+Qed.
+
+Lemma w2body_spec labels' aps' k label ip flushed pt P1 l rl' : KS2 labels' aps' k ->
+  (flushed = false -> d = P1 ++ join_dots (l :: rl') /\ len P1 = pt /\ cover (ip :: aps') (l :: rl')) ->
+  match out_label cfg is_ascii_l label ip with
+  | inl o =>
+      match outs cfg is_ascii_l labels' aps' with
+      | inl os' => Res2 flushed P1 (o ++ tailtext true os') (w2body label ip flushed k pt)
+      | inr s => snd (w2body label ip flushed k pt) = WPanic s
+      end
+  | inr s => snd (w2body label ip flushed k pt) = WPanic s
+  end.
+Proof.
+  intros HK Hpos.
+  assert (HF : flushed = false -> firstn (N.to_nat pt) d = P1).
+  { intros Hf. destruct (Hpos Hf) as (Hd & HP & _). rewrite <- HP. rewrite Hd at 1. apply firstn_len_app. }
+  assert (HU : match outs cfg is_ascii_l labels' aps' with
+             | inl os' => Res2 flushed P1 (label ++ tailtext true os') (flush_prefix d pt flushed (wapp (chars label) (k pt true)))
+             | inr s => snd (flush_prefix d pt flushed (wapp (chars label) (k pt true))) = WPanic s end).
+  { destruct HK as [K1 _]. specialize (K1 pt). unfold Post2 in K1.
+    destruct (outs cfg is_ascii_l labels' aps') as [os'|s]; [|rewrite snd_flush, snd_wapp; exact K1].
+    unfold Res2 in *. destruct K1 as [K1a K1b].
+    rewrite snd_flush, snd_wapp, wcat_flush, wcat_wapp, concat_chars, K1a, K1b. split; [reflexivity|].
+    destruct flushed; [reflexivity|]. rewrite (HF eq_refl). reflexivity. }
+  destruct ip as [m|m|]; cbn [out_label w2body].
+  - apply (mixed_spec2 labels' aps' k m 949 flushed pt P1 rl' HK). intros Hf. destruct (Hpos Hf) as (Hd & HP & Hcv).
+    inversion Hcv; subst. rewrite join_dots_cons in Hd. repeat split; assumption.
+  - destruct (is_ascii_l label) eqn:Eu; [apply HU|].
+    apply (mixed_spec2 labels' aps' k m 992 flushed pt P1 rl' HK). intros Hf. destruct (Hpos Hf) as (Hd & HP & Hcv).
+    inversion Hcv; subst. rewrite join_dots_cons in Hd. repeat split; assumption.
+  - destruct (is_ascii_l label) eqn:Eu; [apply HU|].
+    pose proof (wpl_spec cfg label (k pt true)) as HW.
+    destruct (enc_label cfg label) as [o|s]; [|rewrite snd_flush; exact HW]. destruct HW as [W1 W2].
+    destruct HK as [K1 _]. specialize (K1 pt). unfold Post2 in K1.
+    destruct (outs cfg is_ascii_l labels' aps') as [os'|s]; [|rewrite snd_flush, W1; exact K1].
+    unfold Res2 in *. destruct K1 as [K1a K1b].
+    rewrite snd_flush, wcat_flush, W1, W2, K1a, K1b. split; [reflexivity|].
+    destruct flushed; [reflexivity|]. rewrite (HF eq_refl). reflexivity.
+Qed.
+
+Theorem walk2_spec labels : forall aps seen pte flushed P rl,
+  length labels = length aps ->
+  (flushed = false -> d = P ++ tailtext seen rl /\ len P = pte /\ cover aps rl) ->
+  Post2 flushed P (outs cfg is_ascii_l labels aps) seen (walk2 cfg d he labels aps seen pte flushed).
+Proof.
+  induction labels as [|label labels IH]; intros aps seen pte flushed P rl Hlen Hpos.
+  - destruct aps as [|? ?]; [|discriminate]. cbn [outs walk2 Post2]. unfold Res2. rewrite snd_flush, wcat_flush.
+    split; [reflexivity|]. destruct flushed; [destruct seen; reflexivity|].
+    destruct (Hpos eq_refl) as (Hd & HP & Hcv). assert (Hr : rl = []) by (inversion Hcv; reflexivity). rewrite Hr in Hd.
+    assert (Hd' : d = P ++ []) by (destruct seen; exact Hd).
+    rewrite <- HP. rewrite Hd' at 1. rewrite firstn_len_app. destruct seen; reflexivity.
+  - destruct aps as [|ip aps]; [discriminate|]. cbn [length] in Hlen. assert (Hlen' : length labels = length aps) by lia.
+    rewrite walk2_cons. cbv zeta.
+    set (k := fun pte0 fl0 => walk2 cfg d he labels aps true pte0 fl0).
+    assert (HKS : KS2 labels aps k).
+    { split.
+      - intros pt. apply (IH aps true pt true [] []); [exact Hlen'|discriminate].
+      - intros pt P' rl' Hd' HP' Hcv'. apply (IH aps true pt false P' rl'); [exact Hlen'|].
+        intros _. repeat split; assumption. }
+    pose proof (fun fl pt P1 l rl' => w2body_spec labels aps k label ip fl pt P1 l rl' HKS) as HB.
+    cbn [outs].
+    destruct flushed.
+    + specialize (HB true pte [] [] [] ltac:(discriminate)).
+      destruct (out_label cfg is_ascii_l label ip) as [o|s]; [|cbn [Post2]; destruct seen; [rewrite snd_wcons|]; exact HB].
+      destruct (outs cfg is_ascii_l labels aps) as [os'|s]; [|cbn [Post2]; destruct seen; [rewrite snd_wcons|]; exact HB].
+      cbn [Post2]. unfold Res2 in *. destruct HB as [HB1 HB2].
+      destruct seen.
+      * rewrite snd_wcons, wcat_wcons, HB1, HB2. cbn [tailtext]. rewrite join_dots_cons. split; reflexivity.
+      * rewrite HB1, HB2. cbn [tailtext]. rewrite join_dots_cons. split; reflexivity.
+    + destruct (Hpos eq_refl) as (Hd & HP & Hcv). destruct (cover_cons_inv _ _ _ Hcv) as (l & rl' & ->).
+      destruct seen.
+      * cbn [tailtext] in Hd.
+        assert (Hdot : nth (N.to_nat pte) d 256 = DOT) by (rewrite Hd, <- HP; apply nth_len_app).
+        rewrite Hdot, N.eqb_refl. cbn [negb]. rewrite andb_false_r.
+        specialize (HB false (pte + 1) (P ++ [DOT]) l rl').
+        assert (Hpre : false = false -> d = (P ++ [DOT]) ++ join_dots (l :: rl') /\ len (P ++ [DOT]) = pte + 1 /\ cover (ip :: aps) (l :: rl')).
+        { intros _. split; [rewrite <- app_assoc; exact Hd|]. split; [rewrite len_app, HP; reflexivity|exact Hcv]. }
+        specialize (HB Hpre).
+        destruct (out_label cfg is_ascii_l label ip) as [o|s]; [|exact HB].
+        destruct (outs cfg is_ascii_l labels aps) as [os'|s]; [|exact HB].
+        cbn [Post2 tailtext]. rewrite join_dots_cons. apply Res2_shift in HB. exact HB.
+      * cbn [tailtext] in Hd. specialize (HB false pte P l rl' ltac:(intros _; repeat split; assumption)).
+        destruct (out_label cfg is_ascii_l label ip) as [o|s]; [|exact HB].
+        destruct (outs cfg is_ascii_l labels aps) as [os'|s]; [|exact HB].
+        cbn [Post2 tailtext]. rewrite join_dots_cons. exact HB.
+Qed.
+End Walk2.
